@@ -172,3 +172,74 @@ def oracle_wingbox_geometry_mirror(R, tier, seed):
         if bad: _fail(O, "C07:WingboxGeometry:%s-not-mirror-invariant" % sorted(bad)[0], {"kind": kind, "nx": nx, "ny": ny, "seed": seed, "it": it}, errors=bad, mesh=mesh.tolist())
         else: O["ok"] += 1
         R.mark("c07wg", it)
+
+
+def oracle_geometry_full_span(R, tier, seed):
+    """full-span meshes (symmetry=False): every geometry transformation component applied to a mesh and to its mirror
+    image (design variable distributions reversed, y-shear negated) gives mirror-image meshes; on a mirror-symmetric mesh
+    with symmetric distributions the result is mirror-symmetric.  Then Geometry + AeroPoint end to end with every
+    design variable set: coefficients of the mirror pair agree, rolling / yawing moments change sign."""
+    import openaerostruct.geometry.geometry_mesh_transformations as T
+    O = R.oracle("geometry-transformations.full-span-mirror")
+    O2 = R.oracle("Geometry+AeroPoint.full-span-mirror")
+    rng = gen.stable_rng(seed, "c07fs")
+    reps = 1 if tier == "quick" else 3
+    for rep in range(reps):
+        for symmetric_mesh in (True, False):
+            nx = int(rng.choice([2, 3])); nyh = int(rng.choice([2, 3, 4])); ny = 2 * nyh - 1
+            if symmetric_mesh:
+                a = mirror_full(gen.rand_mesh(rng, nx, nyh, "left", offset=False))
+            else:
+                a = gen.rand_mesh(rng, nx, ny, "full", offset=False)
+            b = mirror_mesh(a)
+            half = rng.uniform(0.7, 1.3, nyh); sh_h = rng.normal(size=nyh) * 0.2; tw_h = rng.uniform(-5, 5, nyh)
+            if symmetric_mesh:
+                dist = np.concatenate([half, half[-2::-1]]); sh = np.concatenate([sh_h, sh_h[-2::-1]]); tw = np.concatenate([tw_h, tw_h[-2::-1]])
+                shy = np.concatenate([sh_h, -sh_h[-2::-1]]); shy[nyh - 1] = 0.0
+            else:
+                dist = rng.uniform(0.7, 1.3, ny); sh = rng.normal(size=ny) * 0.2; tw = rng.uniform(-5, 5, ny); shy = rng.normal(size=ny) * 0.05
+            span_new = float((a[0, :, 1].max() - a[0, :, 1].min()) * 1.3)
+            tval = float(rng.uniform(0.3, 0.8)); rap = float(rng.choice([0.25, 0.6]))
+            comps = {
+                "Taper": (lambda m: T.Taper(val=tval, mesh=m, symmetry=False, ref_axis_pos=rap), lambda m, rev: {"taper": tval}),
+                "ScaleX": (lambda m: T.ScaleX(val=np.ones(ny), mesh_shape=m.shape, ref_axis_pos=rap), lambda m, rev: {"in_mesh": m, "chord": dist[::-1] if rev else dist}),
+                "Sweep": (lambda m: T.Sweep(val=0.0, mesh_shape=m.shape, symmetry=False), lambda m, rev: {"in_mesh": m, "sweep": 20.0}),
+                "ShearX": (lambda m: T.ShearX(val=np.zeros(ny), mesh_shape=m.shape), lambda m, rev: {"in_mesh": m, "xshear": sh[::-1] if rev else sh}),
+                "Stretch": (lambda m: T.Stretch(val=1.0, mesh_shape=m.shape, symmetry=False, ref_axis_pos=rap), lambda m, rev: {"in_mesh": m, "span": span_new}),
+                "ShearY": (lambda m: T.ShearY(val=np.zeros(ny), mesh_shape=m.shape), lambda m, rev: {"in_mesh": m, "yshear": (-shy[::-1]) if rev else shy}),
+                "Dihedral": (lambda m: T.Dihedral(val=0.0, mesh_shape=m.shape, symmetry=False), lambda m, rev: {"in_mesh": m, "dihedral": 10.0}),
+                "ShearZ": (lambda m: T.ShearZ(val=np.zeros(ny), mesh_shape=m.shape), lambda m, rev: {"in_mesh": m, "zshear": sh[::-1] if rev else sh}),
+                "Rotate": (lambda m: T.Rotate(val=np.zeros(ny), mesh_shape=m.shape, symmetry=False, ref_axis_pos=rap), lambda m, rev: {"in_mesh": m, "twist": tw[::-1] if rev else tw}),
+            }
+            for cname, (mk, ins) in comps.items():
+                oa, _, _ = core.run_comp(mk(a), ins(a, False), want_J=False)
+                ob, _, _ = core.run_comp(mk(b), ins(b, True), want_J=False)
+                err = float(np.abs(ob["mesh"] - mirror_mesh(oa["mesh"])).max())
+                if symmetric_mesh:
+                    err = max(err, float(np.abs(oa["mesh"] - mirror_mesh(oa["mesh"])).max()))
+                O["cases"] += 1
+                desc = {"component": cname, "mirror_symmetric_mesh": symmetric_mesh, "nx": nx, "ny": ny, "ref_axis_pos": rap, "seed": seed, "rep": rep}
+                if err > 1e-9:
+                    _fail(O, "C07:geometry_mesh_transformations.%s:full-span-mesh-not-mirror-covariant" % cname, desc, max_abs_mesh_difference=err, mesh=a.tolist())
+                else: O["ok"] += 1
+                R.mark("c07fs", cname, symmetric_mesh, rep)
+        # end to end: an asymmetric full-span wing and its mirror image, all design variables active, sideslip reversed
+        ny = 5
+        a = gen.rand_mesh(rng, 2, ny, "full", plain=True, offset=False); b = mirror_mesh(a)
+        kw = {"chord_cp": np.array([1.2, 0.9, 0.8]), "twist_cp": np.array([3.0, 1.0, -1.0]), "taper": 0.6, "sweep": 15.0, "dihedral": 5.0,
+              "span": float((a[0, :, 1].max() - a[0, :, 1].min()) * 1.2)}
+        alpha = float(rng.uniform(1, 8)); beta = float(rng.uniform(2, 8))
+        res = []
+        for mesh, rev in ((a, False), (b, True)):
+            k2 = {k: (v[::-1].copy() if rev and hasattr(v, "shape") else v) for k, v in kw.items()}
+            p = aero.run(aero.build_aero([aero.aero_surface(mesh, name="w", symmetry=False, **k2)], alpha=alpha, beta=(-beta if rev else beta), Mach=0.3, geom=True))
+            res.append({k: aero.g(p, "aero." + k) for k in ("CL", "CD", "CM")})
+        O2["cases"] += 1
+        bad = {}
+        for k in ("CL", "CD"):
+            if _rel(res[1][k], res[0][k]) > 1e-8: bad[k] = _rel(res[1][k], res[0][k])
+        cm_a, cm_b = np.ravel(res[0]["CM"]), np.ravel(res[1]["CM"])
+        cm_m = cm_a * np.array([-1.0, 1.0, -1.0])
+        if np.abs(cm_b - cm_m).max() > 1e-8 * max(np.abs(cm_a).max(), 1e-6): bad["CM"] = float(np.abs(cm_b - cm_m).max())
+        if bad: _fail(O2, "C07:Geometry+AeroPoint:%s-full-span-mirror-pair" % sorted(bad)[0], {"alpha": alpha, "beta": beta, "seed": seed, "rep": rep}, errors=bad, mesh=a.tolist())
+        else: O2["ok"] += 1
